@@ -71,6 +71,16 @@ def declare (env : Env) (n : String) (v : V) : SM Env := do
   | sc :: rest => pure (((n, a) :: sc.filter (·.1 != n)) :: rest)
   | [] => pure [[(n, a)]]
 
+/-- the catch identifier: a variable of that name already declared in the try statement's scope is
+    assigned, otherwise a new variable is declared there -/
+def bindCatch (env : Env) (n : String) (v : V) : SM Env := do
+  match env with
+  | sc :: _ =>
+    match sc.find? (·.1 == n) with
+    | some (_, a) => do liftM (heapSet a (.box v)); pure env
+    | none => declare env n v
+  | [] => declare env n v
+
 def readBox (a : Addr) : SM V := do
   match (← liftM (heapGet a)) with
   | .box v => pure v
@@ -543,22 +553,30 @@ def execStmt (F : FloatOps) : Nat → Env → Stmt → SM (Comp × Env)
               liftM (alloc (.rterr (some ea))))
           pure (.thr ra, env)
     | .try_ _ _ body catch_ finally_ => do
+      -- the try statement has ONE scope shared by its three blocks (docs/error-handling.md: a variable
+      -- of the try block "is accessible from catch block" and "from finally block", the catch
+      -- identifier "is accessible from finally block")
       -- 1. the try body
-      let (c1, _) ← execBlock F fuel env body
-      -- 2. a thrown error is caught by the catch clause, if there is one
-      let c2 ← (match c1, catch_ with
+      let (c1, env1) ← execList F fuel ([] :: env) body
+      -- 2. a thrown error is caught by the catch clause, if there is one: "thrown error is assigned to
+      --    err variable" — a variable of that name declared by the body is assigned, otherwise the
+      --    identifier is a new variable of this execution of the statement; when the body completes
+      --    normally the identifier is undefined
+      let (c2, env2) ← (match c1, catch_ with
         | .thr e, some (_, ident, _, cbody) => do
-          let scope : List (String × Addr) ← (match ident with
-            | some n => do let b ← liftM (alloc (.box (.rterr e))); pure [(n, b)]
-            | none => pure [])
-          let (c, _) ← execList F fuel (scope :: env) cbody
-          pure c
-        | c, _ => pure c)
+          let envc ← (match ident with
+            | some n => bindCatch env1 n (.rterr e)
+            | none => pure env1)
+          execList F fuel envc cbody
+        | .normal, some (_, some n, _, _) => do
+          let envc ← bindCatch env1 n .undefined
+          pure (Comp.normal, envc)
+        | c, _ => pure (c, env1))
       -- 3. finally runs exactly once, whatever c2 is; it overrides c2 only when it completes abruptly
       match finally_ with
       | none => pure (c2, env)
       | some (_, _, fbody) =>
-        let (c3, _) ← execBlock F fuel env fbody
+        let (c3, _) ← execList F fuel env2 fbody
         match c3 with
         | .normal => pure (c2, env)
         | c => pure (c, env)
